@@ -404,3 +404,37 @@ def all_call_exprs(body, defs=None):
     for bb, t, ci in body.calls():
         res.append((bb, t, ci, d.expr_call(t, bb)))
     return res, d
+
+
+def resolve_captures(crate, closure_body):
+    """capture expressions of `closure_body` expressed over the parameters of the enclosing fn
+    (upvars of intermediate closures are substituted recursively)"""
+    parent = crate.bodies.get(closure_body.parent)
+    if parent is None:
+        return None
+    roles, _ = closure_roles(parent)
+    r = roles.get(closure_body.path)
+    if r is None:
+        return None
+    caps = list(r.call[3][r.arg_index][2])
+    if parent.kind == "closure":
+        pc = resolve_captures(crate, parent)
+
+        def sub(e):
+            if not isinstance(e, tuple) or not e:
+                return e
+            if e[0] == "upvar":
+                if pc is not None and e[1] < len(pc):
+                    return pc[e[1]]
+                return e
+            if e[0] == "call":
+                return ("call", e[1], e[2], tuple(sub(a) for a in e[3]), e[4])
+            if e[0] in ("field", "downcast"):
+                return (e[0], sub(e[1]), e[2])
+            if e[0] == "index":
+                return ("index", sub(e[1]), sub(e[2]))
+            if e[0] == "tuple":
+                return ("tuple", tuple(sub(a) for a in e[1]))
+            return e
+        caps = [sub(c) for c in caps]
+    return caps
